@@ -544,7 +544,9 @@ func (hm *HandshakeManager) unlockedDeleteHostInfo(hostinfo *HostInfo) {
 		hm.vpnIps = map[netip.Addr]*HandshakeHostInfo{}
 	}
 
-	delete(hm.indexes, hostinfo.localIndexId)
+	if cur, ok := hm.indexes[hostinfo.localIndexId]; ok && cur.hostinfo == hostinfo {
+		delete(hm.indexes, hostinfo.localIndexId)
+	}
 	if len(hm.indexes) == 0 {
 		hm.indexes = map[uint32]*HandshakeHostInfo{}
 	}
